@@ -205,6 +205,22 @@ func (env *SpecEnv) eval(e Expr, hint types.Type) Value {
 		return n.eval(x.X, hint)
 	case EUn:
 		switch x.Op {
+		case "&":
+			// address of a package-level variable: a fixed (negative) reference
+			id, ok := x.X.(EIdent)
+			if !ok || env.pkg == nil {
+				sfail("& is only supported on package-level variables")
+			}
+			v, ok := env.pkg.Scope().Lookup(id.Name).(*types.Var)
+			if !ok {
+				sfail("&%s: not a package-level variable", id.Name)
+			}
+			pk := ex.prog.pkgs[relPkgPath(v.Pkg())]
+			g, ok := pk.Members[v.Name()].(*ssa.Global)
+			if !ok {
+				sfail("&%s: no global", id.Name)
+			}
+			return Term{S: fmt.Sprintf("(- %d)", ex.globalID(g)), T: types.NewPointer(v.Type())}
 		case "!":
 			t := env.evalTerm(x.X, types.Typ[types.Bool])
 			return Term{S: sNot(t.S), T: t.T}
